@@ -23,10 +23,11 @@ type faultPlan struct {
 	delay      map[int]map[int]time.Duration
 	cbFail     int // >= 0: this callback call fails
 	cbErr      error
+	chanSlow   map[int]int // live-fed Chan leaf id -> position before which its feeder pauses 70 ms
 }
 
 func newFaultPlan() *faultPlan {
-	return &faultPlan{srcErrAt: map[int]int{}, srcErr: map[int]error{}, transient: map[int]map[int]error{}, delay: map[int]map[int]time.Duration{}, cbFail: -1}
+	return &faultPlan{srcErrAt: map[int]int{}, srcErr: map[int]error{}, transient: map[int]map[int]error{}, delay: map[int]map[int]time.Duration{}, cbFail: -1, chanSlow: map[int]int{}}
 }
 
 type sbuild struct {
@@ -114,6 +115,26 @@ func (b *sbuild) build(n *pnode, owner string) stream.Stream[int] {
 	case "empty":
 		return stream.Empty[int]()
 	case "chan":
+		if n.m == 1 {
+			// fed by a producer while the consumer runs: Next really waits in its select
+			c := make(chan int)
+			items := n.items
+			slowAt, slow := b.plan.chanSlow[n.id]
+			sim.GoNamed("chan-feeder", func() {
+				for i, x := range items {
+					if slow && i == slowAt {
+						sim.Sleep(70*time.Millisecond, "chan-feeder-slow")
+					}
+					sim.Send(c, x, "chan-feeder-send")
+				}
+				if slow && slowAt >= len(items) {
+					sim.Sleep(70*time.Millisecond, "chan-feeder-slow")
+				}
+				sim.Close(c, "chan-feeder-close")
+			})
+			b.r.Probe("chan-leaf-fed-live")
+			return stream.Chan[int](c)
+		}
 		c := make(chan int, len(n.items)+1)
 		for _, x := range n.items {
 			c <- x
